@@ -133,6 +133,13 @@ func tokenGrid() []string {
 			}
 		}
 	}
+	// numbers between 2^63 and 2^64 themselves (an unsigned parse takes them, a signed conversion makes them negative,
+	// and products with 60 / 3600 then wrap to small positive steps)
+	for _, v := range []string{"9223372036854775807", "9223372036854775808", "9223372036854775809", "9223372036854775868", "9223372036854779408", "13835058055282163712", "18446744073709551555", "18446744073709551615", "18446744073709551616"} {
+		for _, u := range []string{"S", "M", "H", ""} {
+			toks = append(toks, "T"+v+u)
+		}
+	}
 	toks = append(toks, "T307445734561825861M", "T5124095576030432H", "T307445734561825862M", "T18446744073709551617S", "T18446744073709551646S", "T36893488147419103233S")
 	toks = append(toks, "T1H30M", "T1M30S", "T1H1M1S", "T1S1S", "T1H-30M", "T30M1H", "T1M 30S", "T1HM", "T1.5H30M", "TT1M", "T1MT1M")
 	var out []string
@@ -140,7 +147,7 @@ func tokenGrid() []string {
 		out = append(out, "OCRA-1:HOTP-SHA1-6:QN08-"+t, "OCRA-1:HOTP-SHA512-8:C-QA10-PSHA1-S064-"+t)
 	}
 	for _, d := range []string{"6", "06", "006", "+6", "-6", "6.0", "6.", "0x6", "6 ", " 6", "\uff16", "1e1", "10", "010", "0x0A", "6_", "1_0", "٦",
-		"262", "264", "518", "65542", "4294967302", "18446744073709551622", "-250", "-4294967290", "0o6", "0b110", "1_0", "00000000000000000000006"} {
+		"262", "264", "518", "65542", "4294967302", "18446744073709551622", "9223372036854775814", "18446744073709551610", "-250", "-4294967290", "0o6", "0b110", "1_0", "00000000000000000000006"} {
 		out = append(out, "OCRA-1:HOTP-SHA1-"+d+":QN08", "OCRA-1:HOTP-SHA256-"+d+":C-QH10-T1M")
 	}
 	for _, q := range []string{"QN08", "QN8", "QN008", "QN+8", "QN10", "QN010", "QN0x8", "QN08.0", "QN 8", "Q N08", "QN1e1", "QN-8", "QA08", "QH10", "QB08", "QN09", "QN16", "QN64", "QNN08", "Q08", "QN08QN08"} {
